@@ -133,7 +133,8 @@ func generateOnce(r *mon.RNG, id string, o *GenOpts) *Grammar {
 	for i := s.n - 1; i >= 0; i-- {
 		p := &Prod{Name: pname(id, i), PosStyle: r.Weighted(1, 4, 2, 2, 1), PtrRecv: ptrRecv[i], ParserKV: r.Chance(1, 3)}
 		if o.ForcePos {
-			p.PosStyle = 1 + r.Intn(3)
+			// mostly all three fields; sometimes only one or two of them (each is filled in on its own)
+			p.PosStyle = []int{1, 2, 3, 1, 2, 3, 1, 5, 6, 7}[r.Intn(10)]
 		}
 		pc := &prodGen{s: s, idx: i, budget: o.Budget}
 		e := pc.alt(o.Depth, false)
